@@ -162,9 +162,12 @@ def build_layer(d, roots):
     if t == 'apply':
         return Apply(**{k: sym(s) for k, s in d['fields'].items()})
     if t == 'ram':
-        return CacheToRam(d['names'], size=d.get('size'), impure=d.get('impure', False))
+        names = d['names']
+        if d.get('names_as_str') and names is not None and len(names) == 1:
+            names = names[0]          # a single name may be given as a bare string
+        return CacheToRam(names, size=d.get('size'), impure=d.get('impure', False))
     if t == 'disk':
-        if d.get('impure'):
+        if d.get('impure') or d.get('names_as_str'):
             # CacheToDisk.simple has no `impure` argument: build the layer from its parts
             from tarn import DiskDict, HashKeyStorage
             from tarn.config import StorageConfig, init_storage
@@ -174,7 +177,8 @@ def build_layer(d, roots):
                 os.makedirs(root, exist_ok=True)
                 init_storage(StorageConfig(hash='sha256', levels=[1, 31]), index)
                 init_storage(StorageConfig(hash='sha256', levels=[1, 31]), storage)
-            return CacheToDisk(index, HashKeyStorage(DiskDict(storage)), PickleSerializer(), d['names'], impure=True)
+            names = d['names'][0] if d.get('names_as_str') and len(d['names']) == 1 else d['names']
+            return CacheToDisk(index, HashKeyStorage(DiskDict(storage)), PickleSerializer(), names, impure=bool(d.get('impure')))
         return CacheToDisk.simple(*d['names'], root=roots[d['root']], serializer=PickleSerializer())
     if t == 'columns':
         from tarn import DiskDict, HashKeyStorage
